@@ -1,4 +1,4 @@
-import DrummerVerif.Lemmas.Renew
+import DrummerVerif.Lemmas.Rounds
 /-! Non-vacuity of `healed_fleet_stays_healed`: a concrete settled closed-loop state in which every member is running
     (one shard, one member on one NodeHost, the view at the group's version), and a concrete fault-free event sequence
     from it (a tick, the NodeHost's report, an execution); the model's `report` on that state is evaluated by the kernel. -/
@@ -80,6 +80,33 @@ theorem renewed : ql2.db.Since 10 ["a1"] :=
   (report_since ql1 ql2 "a1" false 0 10 [] (quiet_step ql ql1 settled (.tick ql qdb1 10 rfl)).1
     (by intro c hc c' hc' _; simp [ql1, ql, qdb1, qdb, DB.applyTick] at hc hc'; rw [hc, hc'])
     hosted (by decide) (since_nil _ _) rfl).1
+
+/-- `healed_for_ever_under_cadence` with one sweep of one tick on the same state: the tick, then the report of a1 (the
+    only NodeHost a record names) -/
+theorem hosted0 : ql.ViewsHosted := by
+  intro c hc r hr
+  simp [ql, qdb] at hc
+  subst hc
+  simp [qview] at hr
+  subst hr
+  exact ⟨qh, rfl, ⟨1, 101, 0⟩, rfl, rfl⟩
+
+theorem oneSweep : Sweeps 1 ql ql2 :=
+  .tail ql ql ql2 ["a1"] (.refl ql)
+    (.report ql ql1 ql2 1 [] "a1" false 0 (.step ql ql ql1 0 1 [] (.refl ql) (.tick ql qdb1 10 rfl)) rfl)
+    (by decide)
+    (by
+      intro c hc r hr
+      have : ql2.db.image.shards.all (fun c => c.replicas.all (fun r => r.address == "a1")) = true := by decide
+      rw [List.all_eq_true] at this
+      have h1 := this c hc
+      rw [List.all_eq_true] at h1
+      simpa using h1 r hr)
+
+theorem forEver : ql2.Settled ∧ ql2.AllRunning :=
+  let h := healed_for_ever_under_cadence 1 ql ql2 settled allRunning (by decide) (fresh_mono _ 0 _ (by decide) fresh0)
+    (by intro c hc c' hc' _; simp [ql, qdb] at hc hc'; rw [hc, hc']) hosted0 (by decide) oneSweep
+  ⟨h.2.1, h.2.2.1⟩
 
 example : ql2.db.image.shards.all (fun c => c.replicas.all (fun r => r.tick == 10)) = true := by decide
 #print axioms stays
